@@ -691,7 +691,10 @@ fn run<T: Uni>(name: &str, r: &mut Rng, n: u64, out: &mut Out, st: &mut Stats) {
         buf.extend_from_slice(&trailer);
         let mut dec = PostcardDecoder::new(&buf[..]);
         let fresh = fresh_plugin();
-        match dec.decode::<T>(if r.chance(1, 2) { &plugin } else { &fresh }) {
+        let use_fresh = r.chance(1, 2);
+        let decoded = std::panic::catch_unwind(std::panic::AssertUnwindSafe(|| dec.decode::<T>(if use_fresh { &fresh } else { &plugin })));
+        let decoded = match decoded { Ok(x) => x, Err(_) => { st.rust_fail.push(format!("{name}: decoder PANICKED on its own encoding of {term} (fresh interner: {use_fresh})")); continue; } };
+        match decoded {
             Ok(back) => {
                 let rest = dec.into_inner();
                 if rest != trailer { st.rust_fail.push(format!("{name}: consumed {} of {} bytes for {term}", buf.len() - rest.len(), bytes.len())); }
